@@ -34,6 +34,7 @@ var failBodies = map[string][]string{
 	"non-text-end":       {`<script>var a = 1;`, `<a href="/x`, `<!-- unfinished`, `<p title='`, `<textarea>abc`, `<style>a{}`, `<b `},
 	"disallowed-position": {`<a href={{$.S0}}>x</a>`, `<p onclick="{{$.S0}}">x</p>`, `<x-foo>{{$.S0}}</x-foo>`, `<p {{$.S0}}="y">x</p>`, `<a unknown="{{$.S1}}">x</a>`, `<object data="{{$.S0}}"></object>`, `<p style=color:{{$.S0}}>`},
 	"unsafe-url-prefix":  {`<a href="javascript:{{$.S0}}">x</a>`, `<a href="java{{$.S0}}">x</a>`, `<a href="{{if $.C0}}/a/{{else}}/b?q={{end}}{{$.S0}}">x</a>`, `<a href="/x y/{{$.S0}}">x</a>`, `<a href="/p?q=%{{$.S0}}">x</a>`, `<a href="/p&amp{{$.S0}}">x</a>`, `<script src="http://h/{{$.S0}}"></script>`, `<a href="{{$.S0}}{{$.S1}}">x</a>`, `<a href="{{$.S0}}:x">y</a>`},
+	"empty-callee":       {`a{{template "emptyT" $}}b`, `<p>{{template "emptyT"}}</p>`},
 	"undefined-callee":   {`a{{template "nope" $}}b`, `<p>{{template "missing"}}</p>`},
 	"predefined-escaper": {`{{$.S0 | html | print}}`, `<a title={{$.S0 | html}}>`},
 	"recursion":          {`{{if $.N}}{{template "SELF" $.N}}{{end}}<a `, `{{with $.N}}{{template "SELF" .}}{{end}}<p title="`},
